@@ -407,7 +407,30 @@ func c18Enum(yield func(interface{}) bool) {
 		if !c18EnumStrings(atoms, 4, shard, nshards, &idx, func(s string) bool { return yield(&c18Case{Lang: li, Src: []byte(s)}) }) {
 			return
 		}
+		// the same delimiters next to their look-alikes: every byte replaced by the Cyrillic rune with that low byte
+		// (U+0400 + b), e.g. "*/" -> "\u042a\u042f"; a lexer that compares bytes with runes confuses them
+		al := []string{"\n", "a"}
+		for _, d := range []string{l.SingleLineCommentStart(), l.MultilineCommentStart(), l.MultilineCommentEnd()} {
+			if d != "" {
+				al = append(al, d, c18Alias(d))
+			}
+		}
+		if len(al) > 8 {
+			al = al[:8]
+		}
+		if !c18EnumStrings(al, 4, shard, nshards, &idx, func(s string) bool { return yield(&c18Case{Lang: li, Src: []byte(s)}) }) {
+			return
+		}
 	}
+}
+
+// c18Alias replaces every byte b of an ASCII delimiter by the rune U+0400+b, whose code point has b as its low byte.
+func c18Alias(d string) string {
+	var sb strings.Builder
+	for i := 0; i < len(d); i++ {
+		sb.WriteRune(rune(0x400 + int(d[i])))
+	}
+	return sb.String()
 }
 
 // ---------------------------------------------------------------- generated programs
@@ -418,6 +441,14 @@ func c18Gen(t *rapid.T) interface{} {
 	var sb strings.Builder
 	n := lib.IntN(t, 1, 30, "nlexemes")
 	words := []string{"x", "foo", "=", "1", "return", "é", "日本", "(", ")", ";", "*", "/", "-", "%", "#", "{", "}", "<", ">", "!", "@", "[", "]"}
+	// non-ASCII text whose code points have delimiter bytes as their low byte (Cyrillic and CJK prose does that a lot)
+	aliases := []string{"\u042a\u042f", "\u042f\u042a", "\u042d\u042d", "\u0423", "\u043b", "\u4e2a", "\u4e2d", "\u4e3b", "ОБЪЯВЛЕНИЕ"}
+	for _, d := range []string{l.SingleLineCommentStart(), l.MultilineCommentStart(), l.MultilineCommentEnd()} {
+		if d != "" {
+			aliases = append(aliases, c18Alias(d))
+		}
+	}
+	words = append(words, aliases...)
 	for i := 0; i < n; i++ {
 		switch lib.IntN(t, 0, 6, "lexeme") {
 		case 0, 1: // code run
@@ -444,7 +475,7 @@ func c18Gen(t *rapid.T) interface{} {
 			if st := l.MultilineCommentStart(); st != "" {
 				sb.WriteString(st)
 				for j := 0; j < lib.IntN(t, 0, 4, "nml"); j++ {
-					sb.WriteString(lib.PickStr(t, []string{"", "a", "\n", " text ", "\"", "'", "*", "-", "\n\n", " é "}, "mlpart"))
+					sb.WriteString(lib.PickStr(t, append([]string{"", "a", "\n", " text ", "\"", "'", "*", "-", "\n\n", " é "}, aliases...), "mlpart"))
 				}
 				sb.WriteString(l.MultilineCommentEnd())
 			}
